@@ -7,6 +7,7 @@ Routes per case (see harness/vcheck/c09.py):
   db       DatabasePaths.save_samples (all / minimised) -> commit -> expire -> Fit.samples
   fit      a real (Drawer) fit run twice: the second run loads the completed fit
   dbseq    DatabasePaths.save_samples twice with a commit in between, then load
+  hist     ONE DirectoryPaths and ONE DatabasePaths object over a history of updates (own sample set each) and reloads
 """
 import csv as _csv
 import json
